@@ -278,22 +278,203 @@ def oracle(ctx: vlib.Ctx, n_schemas: int, n_values: int, focus: str | None = Non
     return law_fail
 
 
+# ---------------------------------------------------------------------------
+# (M) correspondence: Format.v pack/unpack/norm/approx/representable vs implementation + libraries
+# ---------------------------------------------------------------------------
+
+def correspondence_cases(ctx: vlib.Ctx, n_schemas: int, n_values: int):
+    rng = ctx.rng
+    cases, descr = [], []
+    for si in range(n_schemas):
+        jsonkind = rng.choice(["json", "orjson"])
+        S = L.Schema(rng, jsonkind, small=True)
+        root = S.new_dc(rng.choice([1, 2, 2, 3]), root=True)
+        src = S.source()
+        modname = f"c04_corr_{ctx.seed}_{si}"
+        try:
+            mod = L.load_module(src, modname)
+            rootcls = mod.__dict__[root.name]
+            tyc = L.coq_ty(root, S)
+            for vi in range(n_values):
+                v = L.gen_value(root, S, mod, rng)
+                tab, unrepr = [], {}
+                pvc = L.coq_pv(v, root, S, tab, unrepr)
+                tabc = "[" + "; ".join(f"({k}, {vlib.coq_str(p)}, {vlib.coq_str(t)})" for k, p, t in dict.fromkeys(tab)) + "]"
+                basic = v.to_dict()
+                for F in FORMATS:
+                    if F in ("json", "orjson") and F != jsonkind:
+                        continue
+                    if F == "orjson" and has_orjson_bad_time(v) and orjson_time_defect_present():
+                        ctx.hist("correspondence_skipped", "orjson-library-time-defect")
+                        continue
+                    entry = L.Entry(F, "mixin", rootcls)
+                    nb = entry.native_tree(v)
+                    why = L.outside_subset(F, v)
+                    parsed, dec = "None", "DecOther"
+                    if why is None:
+                        doc = entry.encode(v)
+                        parsed = "(Some %s)" % L.coq_bv(L.parse_doc(F, doc))
+                        try:
+                            w = entry.decode(doc)
+                            dec = "DecSame" if L.same(w, v) else "DecOther"
+                        except Exception as e:
+                            if type(e).__name__ == "MissingField":
+                                dec = f"(DecMissing {vlib.coq_str(e.field_name)})"
+                    bad = "[" + "; ".join(f"({k}, {vlib.coq_str(p)})" for k, p in dict.fromkeys(unrepr.get(F, []))) + "]"
+                    cases.append("{| c_fmt := %s; c_ty := %s; c_val := %s; c_tab := %s; c_unrepr := %s; c_pack := %s; "
+                                 "c_basic := %s; c_insub := %s; c_parsed := %s; c_dec := %s |}" % (
+                                     L.FMT[F], tyc, pvc, tabc, bad, L.coq_bv(nb), L.coq_bv(basic),
+                                     "true" if why is None else "false", parsed, dec))
+                    descr.append({"format": F, "src": src, "root": root.name, "value_src": L.vsrc(v), "outside": why, "dec": dec})
+                    ctx.hist("correspondence_formats", F + (":outside-subset" if why else ""))
+        finally:
+            L.unload_module(modname)
+    return cases, descr
+
+
+def correspondence(ctx: vlib.Ctx):
+    cases, descr = correspondence_cases(ctx, ctx.budget(40, 400), ctx.budget(3, 4))
+    name = "format-model-vs-impl-and-libraries"
+    bad, log = vlib.coq_bad_idx("c04_fmt", "Format FormatCases", "", "", cases, "case_ok", "fcase", shard=120,
+                                needs=["theories/Format.vo", "theories/FormatCases.vo"])
+    ctx.count(n=len(cases))
+    if bad is None:
+        ctx.correspondence(name, len(cases), -1, log)
+        ctx.not_shown("correspondence " + name, log)
+        return
+    detail = ""
+    if bad:
+        d = descr[bad[0]]
+        detail = f"{len(bad)} mismatching cases; first: format {d['format']} value {d['value_src'][:400]} outside={d['outside']} dec={d['dec']}\n{d['src'][-1200:]}"
+    ctx.correspondence(name, len(cases), len(bad), detail)
+    if bad:
+        ctx.not_shown("correspondence " + name, detail)
+        ctx.coverage["first_mismatch"] = descr[bad[0]]
+
+
+def k11_validation(ctx: vlib.Ctx):
+    """(T) the translated kernel against the Python original + validation of the hex-hash assumption."""
+    name = "K11-translation-vs-python"
+    if not ctx.kernel_report.get("K11", {}).get("ok"):
+        ctx.correspondence(name, 0, -1, "kernel K11 not translated: " + str(ctx.kernel_report.get("K11", {}).get("error")))
+        return
+    from mashumaro.core.meta.code.builder import CodeBuilder
+    from mashumaro.core.meta.helpers import hash_type_args
+    import typing
+    fmts = ["dict", "json", "jsonb", "msgpack", "toml", "yaml", "x_y", "", "dict_json", "to"]
+    targs = [(), (int,), (str, typing.List[int]), (typing.Dict[str, int],)]
+    cases, descr = [], []
+    hexbad = []
+    for d, fn in (("DPack", CodeBuilder.get_pack_method_name), ("DUnpack", CodeBuilder.get_unpack_method_name)):
+        for f in fmts:
+            for ta in targs:
+                for codec in (None, len, 0):
+                    h = hash_type_args(ta) if ta else ""
+                    if ta and not (len(h) == 32 and all(c in "0123456789abcdef" for c in h)):
+                        hexbad.append(h)
+                    try:
+                        exp = "Some " + vlib.coq_str(str(fn(ta, f, codec)))
+                    except Exception:
+                        exp = "None"
+                    cc = "KNone" if codec is None else ("(KObj 1)" if codec is len else "(KInt 0)")
+                    cases.append(f"({d}, {vlib.coq_str(h)}, {'[KObj 0]' if ta else '[]'}, {vlib.coq_str(f)}, {cc}, {exp})")
+                    descr.append((d, f, ta, codec))
+    okf = ("fun c => match c with (d, h, ta, f, cc, e) => match mname d h ta f cc, e with "
+           "| Ok (KStr n), Some m => String.eqb n m | Raise _, None => true | _, _ => false end end")
+    bad, log = vlib.coq_bad_idx("c04_k11", "PyK_names K11Proofs", "From VerifGen Require Import K11.", "", cases, okf,
+                                "dir * string * list kv * string * kv * option string", shard=400,
+                                needs=["theories/K11Proofs.vo"])
+    ctx.count(n=len(cases))
+    if hexbad:
+        ctx.not_shown("assumption hash_type_args returns 32 lowercase hex digits", str(hexbad[:3]))
+    if bad is None:
+        ctx.correspondence(name, len(cases), -1, log)
+        ctx.not_shown("translation validation K11", log)
+    else:
+        ctx.correspondence(name, len(cases), len(bad), str([descr[i] for i in bad[:6]]))
+        if bad:
+            ctx.not_shown("translation validation K11", str([descr[i] for i in bad[:6]]))
+
+
+def names_oracle(ctx: vlib.Ctx):
+    """Direct check of the method-name clause on the real classes: one class carrying every format mixin
+    gets one distinct generated method per (format, direction) and none is overwritten."""
+    import itertools
+    src = L.HEADER + """
+@dataclass
+class P(%s):
+    a: int
+    b: Optional[datetime.date] = None
+"""
+    for jk in ("DataClassJSONMixin", "DataClassORJSONMixin"):
+        for perm in itertools.islice(itertools.permutations([jk, "DataClassYAMLMixin", "DataClassMessagePackMixin", "DataClassTOMLMixin"]), 0, 24, 5):
+            s = src % ", ".join(perm)
+            modname = "c04_names_probe"
+            try:
+                mod = L.load_module(s, modname)
+                P = mod.P
+                import datetime
+                v = P(1, datetime.date(2020, 1, 2))
+                for F in FORMATS:
+                    if F in ("json", "orjson") and (F == "orjson") != (jk == "DataClassORJSONMixin"):
+                        continue
+                    ctx.count(("names", perm, F))
+                    e = L.Entry(F, "mixin", P)
+                    fails = check_case(e, v)
+                    for phase, observed, expected in fails:
+                        ctx.fail(f"{F}/mixin order {perm}: {phase} fails: {observed[:120]}",
+                                 {"entry": "format-roundtrip", "src": s, "shape": "P", "root": "P", "format": F, "kind": "mixin",
+                                  "value_src": "P(1, datetime.date(2020, 1, 2))", "phase": phase, "orjson_options": 0,
+                                  "observed": observed, "expected": expected},
+                                 {"format": F, "entry": "mixin", "phase": phase, "kind": "mixin-order"})
+            finally:
+                L.unload_module(modname)
+
+
 def run(ctx: vlib.Ctx):
     ctx.coverage["rule"] = (
-        "generated modules (enums, NamedTuple, TypedDict, nested/inherited dataclasses with 4 format mixins) x "
+        "oracle: generated modules (enums, NamedTuple, TypedDict, nested/inherited dataclasses with 4 format mixins) x "
         "edge-biased conforming values x 5 formats x {mixin, mixin-str, codec object, one-shot function}; a case is "
         "distinct by (shape annotation, format, entry point, value source); values outside the format's representable "
-        "subset (c04lib.outside_subset, counted under coverage.outside_subset) are skipped for that format only")
+        "subset (c04lib.outside_subset, counted under coverage.outside_subset) are skipped for that format only. "
+        "correspondence: small-grammar modules (scalars, bytes/bytearray, datetime-likes, UUID, Decimal, List, Dict[str,.], "
+        "Optional, nested dataclasses) x values x 4 mixin formats, model run by vm_compute")
     ctx.assumptions += [
-        "fmt_law (hypothesis of C04_roundtrip / C04_doc_is_basic): parse_F(ser_F(b)) = norm_F(b) for the third-party "
-        "format libraries json, orjson, yaml (CSafeLoader/CDumper), msgpack, tomli_w/tomllib - validated on every "
-        "generated document of the mixin path in this run, never proved",
-        "leaf_law: stdlib render/parse pairs (isoformat/fromisoformat, str/UUID, encodebytes/decodebytes)",
+        "fmt_law (hypothesis of C04_roundtrip_partial / C04_doc_is_basic / C04_doc_exact): parse_F(ser_F(b)) = norm_F(b) "
+        "for the third-party libraries json, orjson, yaml (CSafeLoader/CDumper), msgpack, tomli_w/tomllib, up to mapping "
+        "key order (yaml sorts keys, toml writes tables last; Python dict equality ignores order) - validated on every "
+        "document of the mixin path in the oracle and inside Coq on every correspondence case, never proved",
+        "leaf_law: stdlib render/parse pairs (isoformat/fromisoformat, str/UUID, str/Decimal, encodebytes/decodebytes); "
+        "render_wire: bytes and bytearray have the same base64 rendering",
+        "hash_type_args returns md5(...).hexdigest() = 32 lowercase hex digits (checked syntactically by the K11 plugin "
+        "and on sampled type arguments)",
     ]
-    law_fail = oracle(ctx, ctx.budget(220, 2500), ctx.budget(5, 8))
+    ctx.trusted += [
+        "Format.v is a small model (scalars, text-rendered leaves, list, dict with str keys, Optional, nested records): "
+        "NamedTuple, TypedDict, unions, enums, sets, tuples, non-str keys, inheritance and the codec (non-mixin) entry "
+        "points are covered by the oracle only",
+        "the format libraries and the stdlib leaf codecs are oracles with assumed laws (hypotheses of the theorems)",
+        "tools/kernels/k11_method_names.py: translator extension (f-strings over str, +=, str-subclass construction) "
+        "and coq/theories/PyK_names.v",
+    ]
+    ctx.theorems("props/C04_formats.vo", ["C04_roundtrip_partial", "C04_roundtrip_refuted", "C04_doc_is_basic", "C04_doc_exact"])
+    ctx.theorems("props/C04_names.vo", ["C04_method_names_injective", "C04_method_names_total"], kernels=["K11"])
+    ctx.checker_cmd = f"make -C {vlib.COQ} props/C04_formats.vo props/C04_names.vo (coqc 8.16.1, full .vo build)"
+    k11_validation(ctx)
+    correspondence(ctx)
+    broken = bool(ctx.unshown)
+    names_oracle(ctx)
+    n_s, n_v = ctx.budget(160, 2200), ctx.budget(5, 8)
+    if broken:      # a proof obligation or the correspondence broke: search harder for a failing input
+        n_s = ctx.budget(400, 3000)
+    law_fail = oracle(ctx, n_s, n_v)
     if law_fail:
         ctx.not_shown("fmt_law validation (assumption about the format libraries)", str(law_fail[:5]))
     ctx.coverage["fmt_law_violations"] = len(law_fail)
+    if orjson_time_defect_present():
+        ctx.notes.append("installed orjson renders datetime.time with 10000<=microsecond<=99999 with 5 fractional digits "
+                         "(third-party defect): fmt_law does not hold for those native leaves; such cases are classified "
+                         "as known finding C04/orjson-library-time-microseconds-5-digits")
 
 
 # ---------------------------------------------------------------------------
